@@ -845,6 +845,238 @@ theorem committed_run (cfg : Cfg α) : ∀ (ops : List (Op α)) (st : St α), st
 
 end
 
+/-! ## the header that was sent stays sent; the deferred status is the one that is sent -/
+
+section
+variable {α : Type}
+
+theorem sent_dsWriteHeader (st : St α) (s : Nat) (x : Nat × Hdr) (h : st.sent = some x) :
+    (dsWriteHeader st s).sent = some x := by
+  unfold dsWriteHeader; split <;> simp [h, fixSent]
+
+theorem sent_rwWriteHeader (st : St α) (s : Nat) (x : Nat × Hdr) (h : st.sent = some x) :
+    (rwWriteHeader st s).sent = some x := by
+  unfold rwWriteHeader informational connectImmediate vary304
+  split <;> split <;> split <;> simp [dsWriteHeader, h, fixSent] <;> split <;> simp [h]
+
+theorem sent_connectDefault (st : St α) (x : Nat × Hdr) (h : st.sent = some x) :
+    (connectDefault st).sent = some x := by
+  unfold connectDefault; split
+  · exact sent_rwWriteHeader st 200 x h
+  · exact h
+
+theorem sent_commitHeader (st : St α) (x : Nat × Hdr) (h : st.sent = some x) :
+    (commitHeader st).sent = some x := by
+  unfold commitHeader; split
+  · split
+    · exact sent_dsWriteHeader st _ x h
+    · exact h
+  · exact h
+
+theorem sent_emit (st : St α) (p : α) (x : Nat × Hdr) (h : st.sent = some x) : (emit st p).sent = some x := by
+  unfold emit; split <;> simp [encWrite, dsWrite, implicitHeader, h, fixSent]
+
+theorem sent_rwWrite (cfg : Cfg α) (st : St α) (p : α) (x : Nat × Hdr) (h : st.sent = some x) :
+    (rwWrite cfg st p).sent = some x := by
+  unfold rwWrite; split
+  · exact h
+  · apply sent_emit; apply sent_commitHeader
+    rw [(decide1_spec cfg _ p).2.1]; exact sent_connectDefault st x h
+
+theorem sent_rwFlush (st : St α) (x : Nat × Hdr) (h : st.sent = some x) : (rwFlush st).sent = some x := by
+  have h' := sent_connectDefault st x h
+  unfold rwFlush flushThrough
+  split
+  · exact h'
+  · split <;> simp [dsFlush, encFlush, implicitHeader, h', fixSent]
+
+theorem sent_foldl_encWrite (x : Nat × Hdr) : ∀ (cs : List α) (st : St α), st.sent = some x →
+    (cs.foldl encWrite st).sent = some x
+  | [], _, h => h
+  | c :: cs, st, h => by
+    rw [List.foldl_cons]
+    exact sent_foldl_encWrite x cs _ (by simp [encWrite, implicitHeader, h, fixSent])
+
+theorem sent_foldl_dsWrite (x : Nat × Hdr) : ∀ (cs : List α) (st : St α), st.sent = some x →
+    (cs.foldl dsWrite st).sent = some x
+  | [], _, h => h
+  | c :: cs, st, h => by
+    rw [List.foldl_cons]
+    exact sent_foldl_dsWrite x cs _ (by simp [dsWrite, implicitHeader, h, fixSent])
+
+theorem sent_copyRest (st : St α) (cs : List α) (x : Nat × Hdr) (h : st.sent = some x) :
+    (copyRest st cs).sent = some x := by
+  unfold copyRest; split
+  · exact sent_foldl_encWrite x cs st h
+  · exact sent_foldl_dsWrite x cs st h
+
+/-- the state of a handler that has announced the final status `s` and not called WriteHeader since:
+    either nothing is committed and the writer still holds `s`, or `s` is what was sent -/
+def StatusHeld (s : Nat) (st : St α) : Prop :=
+  (st.wroteHeader = false ∧ st.sent = none ∧ st.statusCode = s) ∨ ∃ h, st.sent = some (s, h)
+
+theorem held_rwWrite (cfg : Cfg α) (s : Nat) (hs0 : s ≠ 0) (hs1 : isInformational s = false) (st : St α) (p : α)
+    (h : StatusHeld s st) :
+    StatusHeld s (rwWrite cfg st p) ∧ ((cfg.size p == 0) = false → ∃ h, (rwWrite cfg st p).sent = some (s, h)) := by
+  rcases h with ⟨hw, hn, hc⟩ | ⟨hh, hsent⟩
+  · unfold rwWrite
+    by_cases hz : (cfg.size p == 0) = true
+    · simp only [hz, if_true]
+      exact ⟨Or.inl ⟨hw, hn, hc⟩, fun h => by simp at h⟩
+    · simp only [hz]
+      have hcd : connectDefault st = st := by
+        unfold connectDefault
+        have : (st.statusCode == 0) = false := by simp [hc, hs0]
+        simp [this]
+      rw [hcd]
+      obtain ⟨d1, d2, d3, d4, d5, _⟩ := decide1_spec cfg st p
+      generalize decide1 cfg st p = st2 at *
+      have hcm : (commitHeader st2).sent = some (s, st2.hdr) := by
+        unfold commitHeader
+        have : (st2.statusCode != 0) = true := by simp [d5, hc, hs0]
+        simp [d3, hw, this, dsWriteHeader, d5, hc, hs1, d2, hn, fixSent, hs0]
+      have := sent_emit (commitHeader st2) p _ hcm
+      exact ⟨Or.inr ⟨_, this⟩, fun _ => ⟨_, this⟩⟩
+  · have := sent_rwWrite cfg st p _ hsent
+    exact ⟨Or.inr ⟨hh, this⟩, fun _ => ⟨hh, this⟩⟩
+
+theorem held_sniffLoop (cfg : Cfg α) (s : Nat) (hs0 : s ≠ 0) (hs1 : isInformational s = false) :
+    ∀ (chunks : List α) (n : Nat) (st : St α), StatusHeld s st → (∀ c ∈ chunks, (cfg.size c == 0) = false) →
+      StatusHeld s (sniffLoop cfg chunks n st).1 ∧
+      ((sniffLoop cfg chunks n st).2.2 = 0 → (n ≠ 0 ∨ ∃ h, st.sent = some (s, h)) →
+        ∃ h, (sniffLoop cfg chunks n st).1.sent = some (s, h))
+  | [], n, st, h, _ => by
+    simp only [sniffLoop]
+    exact ⟨h, fun hn hor => by rcases hor with h1 | h1; exact absurd hn h1; exact h1⟩
+  | c :: cs, n, st, h, hne => by
+    unfold sniffLoop
+    by_cases hn : n = 0
+    · simp only [hn, if_true]
+      exact ⟨h, fun _ hor => by rcases hor with h1 | h1; exact absurd rfl h1; exact h1⟩
+    · simp only [hn, if_false]
+      obtain ⟨w1, w2⟩ := held_rwWrite cfg s hs0 hs1 st c h
+      have w2' := w2 (hne c List.mem_cons_self)
+      have h1 : StatusHeld s ({ rwWrite cfg st c with unreal := st.unreal || decide (cfg.size c > n) } : St α) := by
+        obtain ⟨hh, e⟩ := w2'; exact Or.inr ⟨hh, e⟩
+      obtain ⟨i1, i2⟩ := held_sniffLoop cfg s hs0 hs1 cs (n - cfg.size c) _ h1
+        (fun x hx => hne x (List.mem_cons_of_mem _ hx))
+      exact ⟨i1, fun hz _ => i2 hz (Or.inr w2')⟩
+
+theorem held_step (cfg : Cfg α) (hmin : cfg.minLen > 0) (s : Nat) (hs0 : s ≠ 0) (hs1 : isInformational s = false)
+    (st : St α) (op : Op α) (hop : ∀ i, op ≠ Op.writeHeader i) (h : StatusHeld s st) :
+    StatusHeld s (step cfg st op) := by
+  cases op with
+  | writeHeader i => exact absurd rfl (hop i)
+  | write p => exact (held_rwWrite cfg s hs0 hs1 st p h).1
+  | flush =>
+    rcases h with ⟨hw, hn, hc⟩ | ⟨hh, hsent⟩
+    · have hcd : connectDefault st = st := by
+        unfold connectDefault
+        have : (st.statusCode == 0) = false := by simp [hc, hs0]
+        simp [this]
+      simp only [step, rwFlush, hcd, hw]
+      exact Or.inl ⟨hw, hn, hc⟩
+    · exact Or.inr ⟨hh, sent_rwFlush st _ hsent⟩
+  | readFrom cs =>
+    simp only [step, rwReadFrom]
+    by_cases hc : (!st.wroteHeader && decide (cfg.minLen > 0)) = true
+    · simp only [hc, if_true]
+      obtain ⟨i1, i2⟩ := held_sniffLoop cfg s hs0 hs1 (nonEmpty cfg cs) 512 st h (nonEmpty_size cfg cs)
+      unfold afterSniff
+      by_cases hz : (sniffLoop cfg (nonEmpty cfg cs) 512 st).2.2 = 0
+      · simp only [hz, if_true]
+        obtain ⟨hh, e⟩ := i2 hz (Or.inl (by decide))
+        exact Or.inr ⟨hh, sent_copyRest _ _ _ e⟩
+      · simp only [hz, if_false]; exact i1
+    · simp only [hc]
+      rcases h with ⟨hw, _, _⟩ | ⟨hh, hsent⟩
+      · simp [hw, hmin] at hc
+      · exact Or.inr ⟨hh, sent_copyRest _ _ _ hsent⟩
+  | hset k v => exact h
+  | hadd k v => exact h
+  | hdel k => exact h
+
+theorem held_run (cfg : Cfg α) (hmin : cfg.minLen > 0) (s : Nat) (hs0 : s ≠ 0) (hs1 : isInformational s = false) :
+    ∀ (ops : List (Op α)) (st : St α), (∀ op ∈ ops, ∀ i, op ≠ Op.writeHeader i) → StatusHeld s st →
+      StatusHeld s (run cfg st ops)
+  | [], _, _, h => h
+  | op :: ops, st, hops, h => by
+    have : run cfg st (op :: ops) = run cfg (step cfg st op) ops := rfl
+    rw [this]
+    exact held_run cfg hmin s hs0 hs1 ops _ (fun o ho => hops o (List.mem_cons_of_mem _ ho))
+      (held_step cfg hmin s hs0 hs1 st op (hops op List.mem_cons_self) h)
+
+theorem held_rwClose (cfg : Cfg α) (s : Nat) (hs0 : s ≠ 0) (hs1 : isInformational s = false) (st : St α)
+    (h : StatusHeld s st) : ∃ h, (rwClose cfg st).sent = some (s, h) := by
+  have key : ∃ h, (closeHeader cfg st).sent = some (s, h) := by
+    unfold closeHeader
+    rcases h with ⟨hw, hn, hc⟩ | ⟨hh, hsent⟩
+    · simp only [hw, Bool.not_false, if_true]
+      have : ∃ s1 : St α, (if clGtMin cfg st.hdr = true then rwInit cfg st else st) = s1 ∧
+          s1.wroteHeader = false ∧ s1.sent = none ∧ s1.statusCode = s := by
+        split
+        · rcases rwInit_spec cfg st with e | ⟨e, _⟩ <;> rw [e] <;> exact ⟨_, rfl, hw, hn, hc⟩
+        · exact ⟨_, rfl, hw, hn, hc⟩
+      obtain ⟨s1, e, k1, k2, k3⟩ := this
+      rw [e]
+      refine ⟨s1.hdr, ?_⟩
+      unfold commitHeader
+      have : (s1.statusCode != 0) = true := by simp [k3, hs0]
+      simp [k1, this, dsWriteHeader, k3, hs1, k2, fixSent, hs0]
+    · split
+      · refine ⟨hh, sent_commitHeader _ _ ?_⟩
+        split
+        · rcases rwInit_spec cfg st with e | ⟨e, _⟩ <;> rw [e] <;> exact hsent
+        · exact hsent
+      · exact ⟨hh, hsent⟩
+  obtain ⟨hh, e⟩ := key
+  unfold rwClose
+  split
+  · exact ⟨hh, by simp [encClose, implicitHeader, e, fixSent]⟩
+  · exact ⟨hh, e⟩
+
+/-- before the final WriteHeader: header edits and 1xx responses commit nothing -/
+def Uncommitted (st : St α) : Prop := st.wroteHeader = false ∧ st.sent = none
+
+/-- a header edit or an informational (1xx, not 101) WriteHeader -/
+def Preliminary (op : Op α) : Prop :=
+  (∃ k v, op = Op.hset k v) ∨ (∃ k v, op = Op.hadd k v) ∨ (∃ k, op = Op.hdel k) ∨
+    (∃ i, op = Op.writeHeader i ∧ is1xx i = true ∧ i ≠ 101)
+
+theorem uncommitted_run (cfg : Cfg α) : ∀ (ops : List (Op α)) (st : St α), (∀ op ∈ ops, Preliminary op) →
+    Uncommitted st → Uncommitted (run cfg st ops)
+  | [], _, _, h => h
+  | op :: ops, st, hops, h => by
+    have : run cfg st (op :: ops) = run cfg (step cfg st op) ops := rfl
+    rw [this]
+    refine uncommitted_run cfg ops _ (fun o ho => hops o (List.mem_cons_of_mem _ ho)) ?_
+    rcases hops op List.mem_cons_self with ⟨k, v, rfl⟩ | ⟨k, v, rfl⟩ | ⟨k, rfl⟩ | ⟨i, rfl, h1, h2⟩
+    · exact h
+    · exact h
+    · exact h
+    · have hs : 100 ≤ i ∧ i ≤ 199 := by simpa [is1xx] using h1
+      have h304 : (i == 304) = false := by simp; omega
+      have h2xx : (200 ≤ i && i ≤ 299) = false := by simp; omega
+      simp only [step, rwWriteHeader, informational, connectImmediate, vary304, h1, h304, h2xx, Bool.false_and,
+        Bool.and_false, if_true, dsWriteHeader, Uncommitted, is1xx_informational h1 h2]
+      exact ⟨by simpa using h.1, by simpa using h.2⟩
+
+theorem held_after_final_writeHeader (st : St α) (s : Nat) (hs1 : is1xx s = false) (h : Uncommitted st) :
+    StatusHeld s (rwWriteHeader st s) := by
+  have hni : isInformational s = false := by simp [isInformational, hs1]
+  unfold rwWriteHeader informational
+  simp only [hs1, Bool.false_eq_true, if_false]
+  unfold connectImmediate
+  split
+  · right
+    refine ⟨(vary304 s { st with statusCode := s }).hdr, ?_⟩
+    have : (vary304 s { st with statusCode := s }).sent = none := by unfold vary304; split <;> simp [h.2]
+    simp [dsWriteHeader, hni, this, fixSent]
+  · left
+    unfold vary304; split <;> simp [h.1, h.2]
+
+end
+
 /-! ## negotiation -/
 
 theorem mem_insertRev (x y : Pref) : ∀ (l : List Pref), y ∈ insertRev x l ↔ y = x ∨ y ∈ l
